@@ -331,3 +331,18 @@ v("C14", CA, "        src_address = mid.source_address\n\n        if (self.state
 v("C14", CA, "        src_address = mid.source_address\n\n        if (self.state != ControllerApplication.State.NORMAL) or", "        src_address = mid.source_address\n        if src_address == j1939.ParameterGroupNumber.Address.GLOBAL:\n            return\n\n        if (self.state != ControllerApplication.State.NORMAL) or", "keep", "255 is not a requester")
 v("C04", CA, "                    self._device_address_announced += 1\n                    logger.info(\"Try the next address '%d'\", self._device_address_announced)", "                    nxt = self._device_address_announced + 1\n                    self._device_address_announced = nxt\n                    logger.info(\"Try the next address '%d'\", nxt)", "keep", "next address through a local, stored before the send")
 v("C12", ECU, "                    if next_wakeup > event['deadline']:\n                        next_wakeup = event['deadline']\n                else:", "                    if next_wakeup > event['deadline']:\n                        next_wakeup = event['deadline']\n                    break\n                else:", "break", "scan left at the first timer that is not due, list unordered")
+v("C10", J22, "        self.__bam_session_list = [True] * 4", "        self.__bam_session_list = [True for _ in range(4)]", "keep", "pool still created per object")
+v("C08", J22, "        data = [0] * 12\n        data[0]  = ( (TpControlType & 0xF)", "        data = list(bytes(12))\n        data[0]  = ( (TpControlType & 0xF)", "keep", "frame list still created per call")
+v("C08,C12", ECU, "            now = time.time()\n\n            next_wakeup = self.j1939_dll.async_job_thread(now)", "            while not self._job_thread_wakeup_queue.empty():\n                self._job_thread_wakeup_queue.get_nowait()\n            now = time.time()\n\n            next_wakeup = self.j1939_dll.async_job_thread(now)", "keep", "tokens dropped BEFORE the pass starts are served by the pass")
+v("C08,C12", ECU, "            next_wakeup = self.j1939_dll.async_job_thread(now)\n", "            next_wakeup = self.j1939_dll.async_job_thread(now)\n            while not self._job_thread_wakeup_queue.empty():\n                self._job_thread_wakeup_queue.get_nowait()\n", "break", "wake-up tokens dropped after the session pass (seeded C08G)")
+v("C12", ECU, "            for event in list(self._timer_events):\n                if event not in self._timer_events:", "            for event in list(self._timer_events):\n                if self._job_thread_end.is_set():\n                    break\n                if event not in self._timer_events:", "keep", "scan left only on shutdown")
+v("C17", "Dm14Query.py", "            self.state = QueryState.WAIT_FOR_OPER_COMPLETE\n            self._send_dm16()", "            self._send_dm16()\n            self.state = QueryState.WAIT_FOR_OPER_COMPLETE", "break", "client state stored after the DM16 (part of original defect D23)")
+v("C17", "Dm14Server.py", "            self.data_queue.put(data[1 : length + 1])\n        self._ca.unsubscribe(self._parse_dm16)", "            self.data_queue.put(data[1 : length + 1])\n        elif (data[1] | (data[2] << 8)) != len(self.data) + 1:\n            return\n        self._ca.unsubscribe(self._parse_dm16)", "keep", "two-byte size check never drops a legal acknowledge")
+v("C17", "Dm14Server.py", "            self.data_queue.put(data[1 : length + 1])\n        self._ca.unsubscribe(self._parse_dm16)", "            self.data_queue.put(data[1 : length + 1])\n        elif data[1] != len(self.data) + 1:\n            return\n        self._ca.unsubscribe(self._parse_dm16)", "break", "one-byte size check drops the 255-byte read (seeded C17H)")
+v("C02,C03", J22, "        if len(data) <= 4:\n            logger.info('tp-dt with incorrect dlc received, id', mid )", "        if len(data) < 5:\n            logger.info('tp-dt with incorrect dlc received, id', mid )", "keep", "same boundary")
+v("C02,C03", J22, "        if len(data) <= 4:\n            logger.info('tp-dt with incorrect dlc received, id', mid )", "        if len(data) <= 8:\n            logger.info('tp-dt with incorrect dlc received, id', mid )", "break", "short last segments dropped (seeded C03H)")
+v("C18", "Dm14Server.py", "                0x7,\n", "                self.edcp,\n", "break", "refusal carries the last respond()'s EDCP extension (seeded C18G)")
+v("C18", "Dm14Server.py", "                0x7,\n", "                0x06,\n", "keep", "the client also raises for 6")
+v("C17", "Dm14Query.py", "        values = []\n        for i in range(len(raw_bytes) // self.object_byte_size):", "        if self.object_byte_size == 1 and not self.signed:\n            return list(raw_bytes)\n        values = []\n        for i in range(len(raw_bytes) // self.object_byte_size):", "keep", "shortcut for unsigned bytes only")
+v("C17", "Dm14Query.py", "        values = []\n        for i in range(len(raw_bytes) // self.object_byte_size):", "        if self.object_byte_size == 1:\n            return list(raw_bytes)\n        values = []\n        for i in range(len(raw_bytes) // self.object_byte_size):", "break", "shortcut ignores signedness (seeded C17G)")
+v("C19,C18", "Dm14Server.py", "                self.pgn = pgn\n                self.sa = sa\n                self.status", "                self.pgn = pgn\n                self.status", "break", "requester address never stored in the IDLE arm")
